@@ -176,7 +176,13 @@ def run(ctx):
             ctx.check(bool(full) and full[0][1] == "<", "C13-c", ins.key, "stored only when the table has room",
                       "insert writes an entry without `len < entries.len()` (found: %s)" % [nf[1] for nf in full], "")
             rep = [t for t in p.tests if t[3][0] == "call" and pa.short(t[3][1]) in ("any", "contains")]
-            ctx.check(len(rep) == 1 and pa.short(rep[0][3][1]) == "any" and rep[0][2] == "false", "C13-c", ins.key, "stored only when the identifier is new",
+            ok_rep = len(rep) == 1 and pa.short(rep[0][3][1]) == "any" and rep[0][2] == "false"
+            if not ok_rep and not rep:
+                # explicit loop over entries[..len]: the Ok path leaves it only when the iterator is exhausted, and the loop body
+                # returns Repeated when an entry's identifier equals the new one (checked under C13-d below)
+                ex_ = [t for t in p.tests if t[3][0] == "discr" and t[3][1][0] == "call" and pa.short(t[3][1][1]) == "next" and "param_1.entries" in t[1]]
+                ok_rep = bool(ex_) and ex_[-1][2] == "None" and any(q.ret_shape() == "Err(SettingsError::Repeated)" for q in ps)
+            ctx.check(ok_rep, "C13-c", ins.key, "stored only when the identifier is new",
                       "duplicate test on the Ok path: %s" % [(t[1][:50], t[2]) for t in rep], "")
             st = [e for e in p.stores()]
             ok = any("entries" in pa.vfmt(e[4]) and e[3][0] == "agg" and e[3][3] == (("param", 2, ()), ("param", 3, ())) for e in st) and \
@@ -187,7 +193,18 @@ def run(ctx):
                   "refusals: Exceeded, Repeated, InvalidSettingValue", "error returns: %s" % sorted(errs), "")
         cl = prog.one(ins.key + "::{closure#0}")
         if cl is None:
-            ctx.unrecognised("C13-d", ins.key, "duplicate test", "the repeated-identifier test is not an `any(|(i, _)| *i == id)` closure")
+            # explicit loop: on the Repeated path the deciding test is `entry.0 == id` (SettingId equality, either operand order)
+            okl = False
+            for q in [q for q in ps if q.ret_shape() == "Err(SettingsError::Repeated)"]:
+                last = q.tests[-1] if q.tests else None
+                if last and last[3][0] == "call" and pa.short(last[3][1]) == "eq" and "SettingId" in last[3][1] and last[2] == "true" and len(last[3][2]) == 2:
+                    a_, b__ = [pa.vfmt(x) for x in last[3][2]]
+                    ent = lambda s_: "next@" in s_ and "param_1.entries" in s_ and s_.endswith(".0")
+                    okl = (ent(a_) and b__ == "param_2") or (ent(b__) and a_ == "param_2")
+            if okl:
+                ctx.ok("C13-d", "%s:an entry repeats when its IDENTIFIER equals the new one (explicit loop)" % ins.key, "")
+            else:
+                ctx.unrecognised("C13-d", ins.key, "duplicate test", "the repeated-identifier test is neither an `any(|(i, _)| *i == id)` closure nor a loop returning Repeated on `entry.0 == id`")
         else:
             o = fl.Flow(cl, prog).origin(fl.Place({"l": 0})) if hasattr(fl, "Place") else None
             from engine.mir import Place
